@@ -54,6 +54,8 @@ SubRepl == Unrelated \cup
              VDict(<<KV(VStr(<<122, 122>>), VNone)>>),                          \* only an undeclared key
              VList(<<VObj("tuple12", <<>>, NoneOpt)>>),                         \* unconvertible member one level down
              VDict(<<KV(VStr(<<122, 122>>), VList(<<VObj("tuple12", <<>>, NoneOpt)>>))>>),
+             \* the placeholder `...` ("as declared") as a member, and under a key nothing declares
+             VEllipsis, VDict(<<KV(VStr(<<122, 122>>), VEllipsis)>>),
              \* keys whose text could mean something to a DSL or a formatter
              VDict(<<KV(VStr(<<97, 63>>), VBool(FALSE)), KV(VStr(<<123, 125>>), VInt(1))>>) }
 
@@ -95,7 +97,8 @@ C12_OnlySubstitutionError ==
 
 C12_ResultUsable ==
   (phase = "sub" /\ r.ok) =>
-     \/ /\ Sat(r.s)
+     \/ /\ ~Malformed(r.s)
+        /\ Sat(r.s)
         /\ \A t \in ConstTapes : Gen(r.s, t, 0).ok \/ KnownGen(r.s)
      \/ KnownAnyEmpty
 
